@@ -23,9 +23,9 @@ from . import hsim_spy, seams
 from .core import HarnessError
 
 MODULES = ["foo", "foo.sub", "foo.sub.leaf", "foo.util", "foobar", "foo_bar", "fo", "bar", "bar.baz", "foox", "foox.sub",
-           "chk", "chk.core"]
+           "chk", "chk.core", "nsp.inner"]  # nsp is a NAMESPACE package (PEP 420: a directory without __init__.py)
 PKGS = {"foo", "foo.sub", "foo_bar", "bar", "foox", "chk"}
-TOPS = ["foo", "foobar", "foo_bar", "fo", "bar", "foox", "chk"]
+TOPS = ["foo", "foobar", "foo_bar", "fo", "bar", "foox", "chk", "nsp"]
 # 'ca'/'cb': a PROJECT-LOCAL typechecker package living in the forest itself (first imported when an instrumented
 # module is decorated), which later runs may hook as well
 CHECKERS = {"a": "sim.hsim_spy.a", "b": "sim.hsim_spy.b", "none": None, "ca": "chk.a", "cb": "chk.b"}
@@ -243,6 +243,11 @@ def run_one(world, run, bytecode, stats):
     if not bytecode:
         stats.inc("runs_with_dont_write_bytecode")
     sys.dont_write_bytecode = not bytecode
+    prefix_saved = sys.pycache_prefix
+    if run.get("pycache_prefix"):
+        # PYTHONPYCACHEPREFIX: bytecode lives in a mirror tree instead of __pycache__ directories
+        sys.pycache_prefix = os.path.join(world.root, "_pyc_prefix")
+        stats.inc("runs_with_pycache_prefix")
     # process-start configuration of this run: environment variables and the global disable switch
     env_saved = {k: os.environ.get(k) for k in run.get("env", {})}
     os.environ.update(run.get("env", {}))
@@ -527,6 +532,7 @@ def run_one(world, run, bytecode, stats):
                 os.environ[k_] = v_
         # end-of-run invariants that the next op of the SAME process would rely on
         leaked = _be.cache_from_source is not _ORIG_CFS
+        sys.pycache_prefix = prefix_saved
         _be._write_atomic = _ORIG_WA
         _be._io = _ORIG_IO
     if leaked and not crashed:
